@@ -64,6 +64,17 @@ Theorem C14_fast_equals_legacy : forall (S : Type) (seqb : S -> S -> bool) (slen
 Proof. exact mfm_fast_legacy. Qed.
 Print Assumptions C14_fast_equals_legacy.
 
+(* lists of hive/drill sub-datasets (first element a multi-file dataset) never take the fast path: the result does not
+   depend on whether an fsspec filesystem is given, and C14_concat describes it *)
+Theorem C14_subdatasets_always_legacy : forall (S : Type) (seqb : S -> S -> bool) (slen : S -> nat) (X : Type)
+    (file_list : list str) (pf0 : pfile S X) (rest : list (pfile S X)) verify fs root,
+  pf_simple S X pf0 = false ->
+  is_legacy S X verify fs (pf0 :: rest) = true /\
+  metadata_from_many S seqb slen X file_list (pf0 :: rest) verify fs root
+  = metadata_from_many S seqb slen X file_list (pf0 :: rest) verify false root.
+Proof. exact subdatasets_always_legacy. Qed.
+Print Assumptions C14_subdatasets_always_legacy.
+
 (* the slicing of the fast path, f[len(basepath):].lstrip("/"), is the relative path *)
 Theorem C14_fast_slice : forall (base rest : list str),
   rest <> [] -> Forall (fun s => s <> [] /\ ~ In c_slash s) rest ->
@@ -130,6 +141,17 @@ Example C14_partition_columns_nonvacuous :
                                   [[([Some (VStr (s_ "a"))], 0%nat); ([Some (VStr (s_ "a"))], 1%nat)]; [([Some (VStr (s_ "b"))], 2%nat)]])
   = Some (Hive, [([(s_ "k", VStr (s_ "a"))], 0%nat); ([(s_ "k", VStr (s_ "a"))], 1%nat); ([(s_ "k", VStr (s_ "b"))], 2%nat)]).
 Proof. vm_compute. split; reflexivity. Qed.
+
+(* "files whose schemas differ are rejected when verification is requested" - exactly: when the comparison decides
+   equality of the schemas (all attributes of all elements: the tie checks this of pf._schema != ... on every single-
+   attribute difference), verification raises iff some file's schema is not the first file's *)
+Theorem C14_verify_rejects_iff : forall (S : Type) (seqb : S -> S -> bool) (X : Type) basepath rel
+    (pf0 : pfile S X) (rest : list (pfile S X)),
+  (forall a b, reflect (a = b) (seqb a b)) ->
+  (legacy_merge S seqb X true basepath rel (pf0 :: rest) = MValueError S X
+   <-> exists pf, In pf rest /\ pf_schema S X pf <> pf_schema S X pf0).
+Proof. exact verify_rejects_iff. Qed.
+Print Assumptions C14_verify_rejects_iff.
 
 Example C14_nonvacuous :
   analyse_paths [s_ "/d/x/k=a/f0.parquet"; s_ "/d/x/k=b/f1.parquet"; s_ "/d/x/k=a/f2.parquet"] None
